@@ -60,6 +60,7 @@ type world struct {
 	mu       sync.Mutex
 	log      []hx.Event
 	slots    map[string]slotInfo
+	idmode   string
 	byCollID map[int64]ident
 	byPartID map[int64]ident
 	sigStart map[int64]chan struct{} // sentinel collection id -> seen
@@ -74,7 +75,24 @@ func (w *world) add(e hx.Event) {
 	w.mu.Unlock()
 }
 
-func (w *world) collID(id ident) int64 { return int64(100*(w.slots[id.c].idx+1) + id.i) }
+// collID: concrete collection id of incarnation i of a slot.  Ids grow with the incarnation (the source allocates them
+// monotonically).  idmode "digits": each incarnation has one decimal digit more than the previous one (91, 101, 1001, ...),
+// so the catalog keys, which etcd lists in lexicographic order, come in the REVERSE of the creation order.
+func (w *world) collID(id ident) int64 {
+	k := int64(w.slots[id.c].idx + 1)
+	if w.idmode == "digits" {
+		base := int64(90)
+		for j := 1; j < id.i; j++ {
+			if base == 90 {
+				base = 100
+			} else {
+				base *= 10
+			}
+		}
+		return base + k
+	}
+	return int64(100*k) + int64(id.i)
+}
 func partID(cid int64) int64           { return cid*100 + 1 }
 func defPartID(cid int64) int64        { return cid*100 + 99 }
 
@@ -388,6 +406,7 @@ func runPlan(srv *catalog.Server, p *hx.Plan, n int) []hx.Event {
 			w.slots[name] = slotInfo{idx: idx, db: hx.S(c, "db"), dbid: int64(hx.I(c, "dbid")), name: hx.S(c, "name")}
 		}
 	}
+	w.idmode = hx.S(p.Params, "idmode")
 	root := fmt.Sprintf("c13-%d-%d", os.Getpid(), n)
 	cw := srv.Writer(root)
 	defer cw.Clear()
